@@ -144,9 +144,11 @@ def run(rep, tier, seed):
         max_conc = max(max_conc, res["max_inside_hook"], res["max_overlap_logical"])
         if res["overlapping_pairs"] > 0:
             sigs.add(res["order_signature"])
+        for sd in res.get("sequential_differs", [])[:1]:
+            rep.violation("result-depends-on-earlier-calls", "a call on the shared evaluator, made in sequence after other calls, differs from the same call made alone on a fresh evaluator: %s" % json.dumps(sd)[:400], dict(one, expected=sd.get("expected"), observed=sd.get("observed")))
         if res["mismatch_count"]:
             m = res["mismatches"][0]
-            rep.violation("result-differs-from-sequential", "%d of %d concurrent calls differ from the sequential result, e.g. %s" % (res["mismatch_count"], res["calls"] + res.get("hammer_calls", 0), json.dumps(m)[:400]), dict(one, expected=m.get("expected"), observed=m.get("observed")))
+            rep.violation("result-differs-from-sequential", "%d of %d concurrent calls differ from the result of the same call made alone, e.g. %s" % (res["mismatch_count"], res["calls"] + res.get("hammer_calls", 0), json.dumps(m)[:400]), dict(one, expected=m.get("expected"), observed=m.get("observed")))
         if res["thread_panics"]:
             rep.violation("thread-panicked", "%d worker threads panicked" % res["thread_panics"], one)
         if res["poisoned"]:
